@@ -7,7 +7,7 @@
    next-state relation step by step (C02 C03 C12 C13; the download flag of C15). *)
 EXTENDS Ranger, Policy, Json, IOUtils
 
-CONSTANT Prop      \* "C02" | "C03" | "C08" | "C12" | "C13"
+CONSTANT Prop      \* "C02" | "C03" | "C08" | "C12" | "C13" | "C15"
 
 Rec == ndJsonDeserialize(IOEnv.TRACE)
 
@@ -61,8 +61,12 @@ PutC02(r, pre, post) ==
        /\ ~SpecPutOk(pre, r.e) => (r.res = "NewerEntryExists" /\ post = pre)
        /\ post = Kept(offered \cup {r.e})
 
+HasTwin(r) == "twin" \in DOMAIN r
+TwinOk(r, post) == HasTwin(r) => ToSet(r.twin) = post
+
 PutC03(r, pre, post) ==
   /\ \A i \in 1..Len(r.sok) : r.sok[i]
+  /\ HasTwin(r) => r.tw = PutValid(r)
   /\ r.path = "remote" =>
        IF PutValid(r)
        THEN r.res \in {"ok", "NewerEntryExists"}
@@ -86,6 +90,10 @@ ReplyShapeEq(spec, logged) ==
 NewFpPairs(spec, logged) ==
   {<<logged[i].fp, spec[i].fp>> : i \in {j \in 1..Len(spec) : spec[j].t = "fp"}}
 Injective(m) == \A p \in m, q \in m : (p[1] = q[1]) = (p[2] = q[2])
+
+RECURSIVE FlattenFrom(_, _)
+FlattenFrom(parts, i) == IF i > Len(parts) THEN <<>> ELSE parts[i].vals \o FlattenFrom(parts, i + 1)
+FlattenVals(parts) == FlattenFrom(parts, 1)
 
 MsgR(r, pre) == Process(pre, r.parts, r.cfg, r.now, HexFpEq, HexFpEmpty)
 
@@ -111,14 +119,45 @@ MsgC03(r, pre, post) ==
      /\ \A s \in 1..Len(r.evs) : \A i \in 1..Len(r.evs[s]) : r.evs[s][i].e \in goodEntries
      \* a message carrying only unacceptable entries changes nothing
      /\ (all = bad) => post = pre
-     \* the rest is processed as if the bad ones were absent: the specification's Process skips them. Judged while the
-     \* store has followed the admission rule so far in this run (a defect of that rule is C02's to report)
-     /\ (conform /\ bad # {}) => post = R.S
+     \* the rest is processed as if the bad ones were absent: the driver runs the same history on a twin replica from
+     \* which it withholds the entries it marks (tw); the marks must be exactly the unacceptable values, and the two
+     \* replicas must hold the same entries after every step (TwinOk).  This way the clause does not depend on the
+     \* admission rule itself (a defect of that rule is C02's to report; both replicas run the same code).
+     /\ HasTwin(r) => \A p \in 1..Len(r.parts) : \A i \in 1..Len(r.parts[p].vals) :
+                          r.tw[p][i] = Acceptable(r.parts[p].vals[i], r.now, TRUE)
+     \* without a twin (replayed schedules of other drivers): judged while the store has followed the admission rule so far
+     /\ (~HasTwin(r) /\ conform /\ bad # {}) => post = R.S
 
 MsgC12(r, pre, post) ==
-  LET R == MsgR(r, pre) IN
-  \* modular: only judged when the store followed the specification on this step
-  post = R.S => EvsOk(r, "remote", R.ins, r.from)
+  \* Which entries of a message enter the replica is the admission rule's business (C02) and, for an entry that is
+  \* superseded later in the same message, not observable.  C12 is therefore stated on what is observable: every entry
+  \* that entered and stayed was announced exactly once; an announced entry that did not stay was replaced by one
+  \* at a prefix of its key that did; only acceptable values of this message are announced, each at most once, in message order, with the
+  \* sender, the content status it came with and the download flag of the current policy; every subscriber sees the
+  \* same sequence and nobody else sees anything.
+  LET flat == FlattenVals(r.parts)
+      goodIdx == {n \in 1..Len(flat) : Acceptable(flat[n], r.now, TRUE)}
+      Pos(ev) == {n \in goodIdx : flat[n].e = ev.e /\ flat[n].cs = ev.cs}
+  IN \A s \in 1..Len(r.evs) :
+       IF s \in subs
+       THEN LET L == r.evs[s] IN
+            /\ \A e \in post \ pre : Cardinality({i \in 1..Len(L) : L[i].e = e}) = 1
+            /\ \A i \in 1..Len(L) :
+                  /\ Pos(L[i]) # {}
+                  /\ L[i].o = "remote" /\ L[i].from = r.from /\ L[i].dl = Matches(policy, L[i].e.k)
+                  /\ L[i].e \notin post =>
+                        \E f \in post : f.a = L[i].e.a /\ KeyPrefix(f.k, L[i].e.k)   \* (by which order: C02's business)
+            /\ \A i, j \in 1..Len(L) : i < j => L[i].e # L[j].e
+            \* message order: positions can be chosen increasing
+            /\ \A i, j \in 1..Len(L) : i < j => \E m \in Pos(L[i]), n \in Pos(L[j]) : m < n
+            /\ \A t \in subs : r.evs[t] = L
+       ELSE r.evs[s] = <<>>
+
+\* C15 on the replica: the download flag of every remote-insert event is the verdict of the policy that is current
+\* when the entry arrives (a policy change takes effect at once, also on an open replica)
+DlOk(r) ==
+  \A s \in 1..Len(r.evs) : \A i \in 1..Len(r.evs[s]) :
+     r.evs[s][i].o = "remote" => r.evs[s][i].dl = Matches(policy, r.evs[s][i].e.k)
 
 \* ---------------------------------------------------------------- dispatch
 Check(r, pre, post) ==
@@ -127,12 +166,14 @@ Check(r, pre, post) ==
             [] Prop = "C03" -> PutC03(r, pre, post)
             [] Prop = "C12" -> PutC12(r)
             [] Prop = "C13" -> HeadsOk(r, post)
+            [] Prop = "C15" -> DlOk(r)
             [] Prop = "C08" -> TRUE)
     [] r.ev = "Msg" ->
          (CASE Prop = "C02" -> MsgStoreOk(r, pre, post)
             [] Prop = "C03" -> MsgC03(r, pre, post)
             [] Prop = "C12" -> MsgC12(r, pre, post)
             [] Prop = "C13" -> HeadsOk(r, post)
+            [] Prop = "C15" -> DlOk(r)
             [] Prop = "C08" -> MsgStoreOk(r, pre, post))
     [] r.ev = "RemoveDoc" -> r.res = "ok" /\ post = {} /\ (Prop = "C13" => r.heads = <<>>)
     [] r.ev = "Reopen" -> post = pre /\ (Prop = "C13" => HeadsOk(r, post))
@@ -171,6 +212,7 @@ Step ==
           /\ fpmap' = {<<EmptyHex, {}>>} /\ conform' = TRUE
      ELSE /\ r.ev # "PANIC"
           /\ Check(r, store, ToSet(r.st))
+          /\ Prop = "C03" => TwinOk(r, ToSet(r.st))
           /\ store' = ToSet(r.st)
           /\ conform' = (conform /\ StepConforms(r, store, ToSet(r.st)))
           /\ offered' = NextOffered(r)
